@@ -69,12 +69,12 @@ func (c *Ctx) doCall(st *State, fr *Frame, cc *ssa.CallCommon, instr ssa.Instruc
 
 // callTarget describes a resolved callee
 type callTarget struct {
-	fn    *ssa.Function // may be nil (interface method / dynamic)
-	key   string
-	sig   *types.Signature
-	names []string // parameter names, receiver first when present
-	args  []Val
-	bind  []Val
+	fn      *ssa.Function // may be nil (interface method / dynamic)
+	key     string
+	sig     *types.Signature
+	names   []string // parameter names, receiver first when present
+	args    []Val
+	bind    []Val
 	origins []*Addr // where sequence-typed arguments were loaded from (parallel to args)
 	self    *Term   // the function value of a dynamic call
 }
